@@ -304,7 +304,7 @@ func (ex *Exec) applyContract(fr *Frame, st *State, fc *FuncContract, names []st
 	if !fc.HasModifies {
 		ex.cx.note("contract of %s has no modifies clause: every heap havoced at its call sites", calleeName)
 		for n, s := range ex.cx.heapSorts {
-			post.heaps[n] = ex.cx.fresh("hv_"+n, s)
+			post.heaps[n] = ex.freshHeap("hv_", n, s)
 		}
 	} else {
 		for _, m := range fc.Modifies {
